@@ -158,17 +158,10 @@ class HexaryTrie:
                 #   be pointing to a value that doesn't exist.
                 return BLANK_NODE
         elif node_type == NODE_TYPE_EXTENSION:
-            if len(remaining_key) > 0:
-                # Any remaining key should have traversed down into the extension's
-                # child. (or returned a blank node if the key didn't
-                # match the extension)
-                raise ValidationError(
-                    "Traverse should never return an extension node "
-                    "with remaining key, "
-                    f"but returned node {node!r} with remaining key {remaining_key}."
-                )
-            else:
-                return BLANK_NODE
+            # Either the key ends exactly at the extension node, or it ends part-way
+            # through the extension's path (traverse stops there, with the rest of
+            # the key remaining). No value can be stored in either place.
+            return BLANK_NODE
         elif node_type == NODE_TYPE_BRANCH:
             if len(remaining_key) > 0:
                 # Any remaining key should have traversed down into the branch's child,
